@@ -2,16 +2,24 @@
 
 package prelude
 
-import _ "embed"
+import (
+	_ "embed"
+	"os"
+)
 
 // The runtime invariant monitor of the verification harness. It is appended to
 // the last prelude file, so it is emitted inside the program closure and can
-// see the scheduler and channel state. It is inert unless the environment
-// variable GOPHERJS_VERIF_MON is set when the program runs.
+// see the scheduler and channel state. It is only appended by a compiler
+// process that runs with GOPHERJS_VERIF_MON_EMBED set (the other checks of the
+// harness see the unchanged prelude and its unchanged source map), and it is
+// inert unless the environment variable GOPHERJS_VERIF_MON is set when the
+// program runs.
 
 //go:embed verif_monitor.js
 var verifMonitor string
 
 func init() {
-	jsmapping += "\n" + verifMonitor
+	if os.Getenv("GOPHERJS_VERIF_MON_EMBED") != "" {
+		jsmapping += "\n" + verifMonitor
+	}
 }
